@@ -62,6 +62,23 @@ func DecodeUnknownObject(data []byte, expectNextTypes ...reflect.Type) (Object, 
 // so n levels need memory quadratic in n (a message of 3000 packed levels, 117 KB, cost 1.8 GB).
 const maxNestedDecoders = 4
 
+// maxObjectNesting: how deep objects may lie inside one another (an object in a field of an object, and so
+// on) before the data is refused. Every level is a level of recursion in the decoder: without a limit
+// 700 000 nested rpc_result headers, 8.4 MB, exhaust the goroutine stack, which ends the whole program and
+// can't be recovered from. The limit is the one encoding/json uses; no schema value comes anywhere near it.
+const maxObjectNesting = 10000
+
+// enterObject notes that the decoder goes one object deeper; false (and d.err set) when that is too deep.
+// Every successful call is paired with one d.nesting-- by the caller.
+func (d *Decoder) enterObject() bool {
+	if d.nesting >= maxObjectNesting {
+		d.err = errors.New("objects nested too deep")
+		return false
+	}
+	d.nesting++
+	return true
+}
+
 // DecodeNestedObject decodes an object whose serialisation was found inside the object that d is decoding.
 // It works like DecodeUnknownObject with the hints d has not used yet, but refuses data nested too deep.
 func (d *Decoder) DecodeNestedObject(data []byte) (Object, error) {
@@ -86,6 +103,11 @@ func (d *Decoder) decodeObject(o Object, ignoreCRC bool) {
 	if d.err != nil {
 		return
 	}
+
+	if !d.enterObject() {
+		return
+	}
+	defer func() { d.nesting-- }()
 
 	if !ignoreCRC {
 		crcCode := d.PopCRC()
@@ -368,7 +390,11 @@ func (d *Decoder) decodeRegisteredObject() Object {
 	o := reflect.New(_typ.Elem()).Interface().(Object)
 
 	if m, ok := o.(Unmarshaler); ok {
+		if !d.enterObject() {
+			return nil
+		}
 		err := m.UnmarshalTL(d)
+		d.nesting--
 		if err != nil {
 			d.err = err
 			return nil
